@@ -316,4 +316,5 @@ RefUWide == << Mk(1, nA, "ref"), Mk(0, nA, "ref"), Mk(1, nBA, "ref"), Mk(0, nBA,
                Mk(1, nA, "reff"), Mk(0, nA, "reff"), Mk(1, nBA, "reff"),
                Mk(1, nA, "out"), Mk(0, nA, "out"), Mk(1, nBA, "out"), Mk(0, nxA, "out"),
                Mk(1, nA, "copy"), Mk(0, nBA, "copy") >>
+RefUWide12 == SubSeq(RefUWide, 1, 12)
 =============================================================================
